@@ -36,6 +36,10 @@ CLAIMS = {
             "(space, vectors, scalars) replayed on the real vspace for all dtypes/containers and judged by TLC (operations = algebra, freshness, space equality)", "4 C13"),
     "C14": ("model_checking", "AGM programs whose output is independent of the variable or depends on it only through a notrace primitive, every "
             "depth and mode; replayed and judged by TLC", "4 C14"),
+    "C15": ("exploration", "Dispatch.tla models the decision table of the primitive wrapper (NoSilentDrop); the whole exported namespace (autograd.numpy, "
+            ".linalg, .fft, .random, ArrayBox attributes) is swept with call templates NumPy accepts, each positional float argument (and all of them at "
+            "once) is differentiated in both modes; TLC judges every recorded row (varies & zero => violation, gross disagreement => violation) and 19 "
+            "guard cases that must raise", "4 C15"),
     "C16": ("model_checking", "Operators.tla: every differential operator defined as a contraction of one symbolic integer Jacobian/Hessian; operator "
             "identities model-checked; 20 operators x shapes x argument layouts replayed on the real package, shape and entries compared exactly by TLC", "4 C16"),
     "C17": ("model_checking", "AGM with a user-defined product primitive and a rule table {rule, None, missing}: arities 1..4 x differentiated subsets x "
